@@ -5,8 +5,8 @@ set -e
 cd /repo; git diff > /tmp/demo_defect.$$.diff
 [ -s /tmp/demo_defect.$$.diff ] && git apply -R /tmp/demo_defect.$$.diff
 (cd /verif/replay && cargo build --offline -q 2>/dev/null)
-echo -n "before: "; /verif/replay/target/debug/pocket-replay "$@" | cut -c1-300
+echo -n "before: "; /verif/replay/target/debug/pocket-replay "$@" | cut -c1-600
 cd /repo; [ -s /tmp/demo_defect.$$.diff ] && git apply /tmp/demo_defect.$$.diff
 rm -f /tmp/demo_defect.$$.diff
 (cd /verif/replay && cargo build --offline -q 2>/dev/null)
-echo -n "after:  "; /verif/replay/target/debug/pocket-replay "$@" | cut -c1-300
+echo -n "after:  "; /verif/replay/target/debug/pocket-replay "$@" | cut -c1-600
